@@ -156,6 +156,49 @@ fn number_literals(pm: &rooc::pre_model::PreModel, out: &mut Vec<f64>) {
     }
 }
 
+/// the same program through the program-level parser model (fragment without iterations): tree or rejection
+fn parse_case(src: &str, stream: &str) -> Option<Case> {
+    if !syntax::in_program_fragment(src) { return None; }
+    let s = src.to_string();
+    let imp = match std::panic::catch_unwind(move || RoocParser::new(s).parse()) {
+        Ok(Ok(pm)) => format!("(ok {})", syntax::pre_model_lex(&pm, src)),
+        Ok(Err(_)) => "(err reject)".to_string(),
+        Err(_) => "(err panic)".to_string(),
+    };
+    let mut c = Case::default();
+    c.req = format!("parse-program {}", sx::q(src));
+    c.tags = vec!["parse-program".into(), format!("parse-program:{}", stream), if imp.starts_with("(ok") { "program-accepted".into() } else { "program-rejected".into() }];
+    c.nontrivial = imp.contains("(bin ") || imp.contains("(un ");
+    c.imp = imp;
+    c.show = format!("parse-program\n{}", src);
+    Some(c)
+}
+
+/// drop / duplicate / swap a token or a line of a program
+fn mutate_program(src: &str, r: &mut Rng) -> String {
+    let mut lines: Vec<String> = src.lines().map(|l| l.to_string()).collect();
+    if lines.is_empty() { return src.to_string(); }
+    match r.below(5) {
+        0 => { let i = r.below(lines.len()); lines.remove(i); }
+        1 => { let i = r.below(lines.len()); let l = lines[i].clone(); lines.insert(i, l); }
+        2 => { if lines.len() >= 2 { let i = r.below(lines.len() - 1); lines.swap(i, i + 1); } }
+        _ => {
+            let i = r.below(lines.len());
+            let mut ws: Vec<String> = lines[i].split(' ').map(|w| w.to_string()).collect();
+            if !ws.is_empty() {
+                let j = r.below(ws.len());
+                match r.below(3) {
+                    0 => { ws.remove(j); }
+                    1 => { let extra = r.pick(&[":", ",", "=", "<=", "as", "let", "(", ")", "min", "x", "1", "and"]).to_string(); ws.insert(j, extra); }
+                    _ => { if ws.len() >= 2 { let k = r.below(ws.len() - 1); ws.swap(k, k + 1); } }
+                }
+            }
+            lines[i] = ws.join(" ");
+        }
+    }
+    lines.join("\n") + "\n"
+}
+
 const OPS: [&str; 9] = ["+", "-", "*", "/", "and", "or", "xor", "implies", "iff"];
 
 fn program(objective: &str, constraints: &[String], vars: &[&str], ty: &str) -> String {
@@ -194,8 +237,19 @@ pub fn generate(seed: u64, n: usize, thorough: bool, corpus: Option<&str>) -> Ve
     let mut r = Rng::new(seed);
     let mut cases: Vec<Case> = vec![];
     let mut seen: HashSet<String> = HashSet::new();
+    let mut rp = Rng::new(seed ^ 0x5151);
     let mut push = |src: String, stream: &str, cases: &mut Vec<Case>| {
         if !seen.insert(src.clone()) { return; }
+        // the program-level parser model: the source, its formatted text, and a mutation of either
+        if stream != "repo-programs" && stream != "templates" && stream != "templates-graph" {
+            if let Some(c) = parse_case(&src, stream) { cases.push(c) }
+            let s2 = src.clone();
+            if let Ok(Ok(f1)) = std::panic::catch_unwind(move || RoocParser::new(s2).format()) {
+                if f1 != src { if let Some(c) = parse_case(&f1, stream) { cases.push(c) } }
+                if rp.chance(1, 3) { let m = mutate_program(&f1, &mut rp); if let Some(c) = parse_case(&m, "mutated") { cases.push(c) } }
+            }
+            if rp.chance(1, 4) { let m = mutate_program(&src, &mut rp); if let Some(c) = parse_case(&m, "mutated") { cases.push(c) } }
+        }
         if let Some(c) = one(&src, stream) { cases.push(c) }
     };
 
